@@ -169,6 +169,8 @@ class Server:
     def run(self, prefix=(), fault=None, timeout=120):
         x = Exec()
         x.prefix = list(prefix)
+        if getattr(self, "pre_run", None):
+            self.pre_run()
         if self.unserved is not None:
             x.res = self.unserved
             x.points, x.flag, x.workers, x.faults = [], None, {}, []
